@@ -14,7 +14,7 @@ from harness import core, sexp
 NAMES = ['a.txt', 'b', 'sub', 'x y.html', 'é.bin', 'empty', '..hidden', 'c.d.e', 'deep',
          'cafe\u0301.txt', '\u212bngstrom']      # names that are not in Unicode normal form C (combining accent, ANGSTROM SIGN)
 FAULTS = [None, None, None, 'mtime1', 'open', 'mtime2', 'size', 'peek', 'vanish']
-ERRNOS = ['ENOENT', 'EACCES', 'EIO', 'EISDIR']
+ERRNOS = ['ENOENT', 'EACCES', 'EIO', 'EISDIR', 'ENOTDIR']
 
 
 def build_tree(base, spec):
@@ -257,6 +257,9 @@ def oracle(case, obs):
                                 % (what, o['target'], o['status']), 'not-served')
                 elif o['status'] != 304:
                     return ('%s: conditional request with the file\'s own date answered %s, not 304' % (what, o['status']), 'conditional')
+        if case['mount']['kind'] == 'overlap' and o['status'] in (403, 404) and len(o['find_args']) == 1:
+            return ('%s: the first static application answered %s and the overlapping one was never tried (its error was not a '
+                    'non-breaking one)' % (what, o['status']), 'breaking-error')
         if rq['fault'] is not None and o['status'] not in (200, 304, 403, 404):
             return ('%s: an injected filesystem error became status %s' % (what, o['status']), 'fault-500')
     return None
@@ -340,6 +343,12 @@ def gen_case(rng, tier):
             path = '/' + '/'.join(rng.choice(segpool) for _ in range(rng.choice([1, 2, 3, 4])))
         reqs.append({'path': path, 'ims': rng.choice([None, None, None, 'before', 'at', 'after']),
                      'fault': rng.choice(FAULTS), 'errno': rng.choice(ERRNOS)})
+    # overlapping static applications: every fault at every call while the first one serves a file it has
+    if mount['kind'] == 'overlap':
+        for rel in [f[1] for f in tree['files'] if f[0] == 0][:3]:
+            for fault in [f for f in FAULTS if f is not None]:
+                reqs.append({'path': '/' + rel, 'ims': 'at' if fault == 'mtime1' else None, 'fault': fault,
+                             'errno': rng.choice(['ENOENT', 'ENOENT', 'ENOTDIR', 'EACCES'])})
     # every file once, cleanly, and once conditionally
     for rel in rels:
         reqs.append({'path': '/' + rel, 'ims': None, 'fault': None, 'errno': 'EIO'})
